@@ -659,19 +659,20 @@ class Block(_CIFBase):
 
     @name.setter
     def name(self, name: str) -> None:
-        self._name = _encode_non_ascii(name)
-        if ' ' in self._name or '\t' in self._name or '\n' in self._name:
+        encoded = _encode_non_ascii(name)
+        if ' ' in encoded or '\t' in encoded or '\n' in encoded:
             raise ValueError(
                 "Block name must not contain spaces or line breaks, "
-                f"got: '{self._name}'"
+                f"got: '{encoded}'"
             )
-        if len(self._name) > 75:
+        if len(encoded) > 75:
             warnings.warn(
                 "cif.Block name should not be longer than 75 characters, got "
-                f"{len(self._name)} characters ('{self._name}')",
+                f"{len(encoded)} characters ('{encoded}')",
                 UserWarning,
                 stacklevel=2,
             )
+        self._name = encoded
 
     @property
     def schema(self) -> set[CIFSchema]:
